@@ -72,13 +72,24 @@ def build_state(ctx: Ctx, world: lib.World, prep: Prepared):
     for f in prep.all_fluents:
         fl[f] = SymReal(prep.vars.fluent(f))
     state, keys = world.make_state(atoms, fl)
+    _route(world, prep.task, state)
     return state, keys
+
+
+def _route(world, task, state):
+    """the same state as another construction route of the library builds it: facts and fluents re-created by the trajectory
+    parser, given the problem (annotated with the objects' own types) or not (declared parameter types)"""
+    r = task.get("state_route")
+    if r:
+        lib.via_trajectory_parser(world, state, with_problem=(r == "trajectory"))
 
 
 def concrete_state(world: lib.World, prep: Prepared, atom_vals: Dict[str, bool], fl_vals: Dict[str, float]):
     atoms = {a: bool(atom_vals.get(a, False)) for a in prep.sym_atoms}
     fl = {f: fl_vals[f] for f in prep.all_fluents}
-    return world.make_state(atoms, fl)
+    state, keys = world.make_state(atoms, fl)
+    _route(world, prep.task, state)
+    return state, keys
 
 
 class PermSet(set):
